@@ -20,12 +20,14 @@ items only, every token is the longest match at its position, then `<EOF>`").
 Status: clause 1 (lexer = grammar), the gap clause and clause 3 (gap replacement with prefix
 stability) are proved for every text and every token class (Ignored, Punctuator, Name, IntValue,
 FloatValue, StringValue with the three escape forms and the surrogate-pair rule, BlockString with
-`BlockStringValue()`).  `strip_tokens` / `strip_idem` are proved for source texts made of Unicode
-scalar values (`_partial`; the full statements, which also cover texts with surrogate pairs, are
-kept as `def …_full : Prop`).
+`BlockStringValue()`).  `strip_tokens` / `strip_idem` are proved at full strength (`strip_tokens :
+strip_tokens_full`, `strip_idem : strip_idem_full`): for every source text that lexes, including
+texts with verbatim surrogate pairs (a leading surrogate immediately followed by a trailing one)
+inside strings, block strings and comments; the earlier `_partial` forms (scalar values only) are
+kept as corollaries.
 -/
 namespace Gql.Props.C09
-open Gql Gql.Text Gql.Spec.Lex
+open Gql Gql.Text Gql.Spec.Lex Gql.Text.Pairs
 
 /-! ## Clause 0 — the lexer is total and makes progress (needed by everything else, and by C01) -/
 
@@ -196,28 +198,54 @@ def strip_tokens_full : Prop :=
 def strip_idem_full : Prop :=
   ∀ s out, stripIgnoredCharacters s = .ok out → stripIgnoredCharacters out = .ok out
 
-/-- `strip_tokens`, proved for every source text made of Unicode scalar values (the
-specification's SourceCharacter): the stripped text lexes, and to the same kinds and values
-(block strings are re-printed minimised and compared by value).  Missing for the full statement:
-texts that contain surrogate code points (the block-string print/lex round trip of C08 is stated
-for scalar values). -/
-theorem strip_tokens_partial (s out : List Nat) (ts : List Token) (hs : ∀ c ∈ s, isScalar c = true)
-    (h : stripIgnoredCharacters s = .ok out) (hl : lexAll s = .ok ts) :
-    ∃ ts', lexAll out = .ok ts' ∧ kv (sig ts') = kv (sig ts) := by
-  obtain ⟨out', ts', h1, h2, h3, _⟩ := strip_correct s hs ts hl
+/-- Ingredient of clause 4, lexer side: the value of every block string token of the grammar is
+block-representable and is a sequence of Unicode scalar values and surrogate pairs (`Paired`: a
+leading surrogate is immediately followed by a trailing one and every trailing one is so preceded) —
+splitting the raw value at line terminators, removing the common indentation and dropping blank
+lines never separates a pair. -/
+theorem block_token_value (u : List Nat) (m : Match) (h : lexToken? u = some m)
+    (hk : m.kind = .blockString) : ∃ v, m.value = some v ∧ BlockRepresentable v ∧ Paired v := by
+  obtain ⟨v, hv, hrep, _, hp⟩ := lexToken?_block_value h hk
+  exact ⟨v, hv, hrep, hp⟩
+
+/-- Ingredient of clause 4, printer side: `print_block_string(v, minimize=True)` of a
+block-representable value of scalar values and surrogate pairs, followed by any text, is read by
+the grammar as one block string token with exactly that value (the C08 round trip extended from
+scalar values to surrogate pairs). -/
+theorem block_reprint (v rest : List Nat) (hs : Paired v) (hrep : BlockRepresentable v) :
+    lexToken? (printBlockString v true ++ rest) =
+      some ⟨.blockString, (printBlockString v true).length, some v⟩ :=
+  lexToken?_printed_block v rest hs hrep
+
+-- ` <pair>"""<LF><pair>` is such a value; a lone, a reversed and a separated pair are not `Paired`
+example : Paired [32, 0xD83D, 0xDE00, 34, 34, 34, 10, 0xDBFF, 0xDFFF] ∧
+    BlockRepresentable [32, 0xD83D, 0xDE00, 34, 34, 34, 10, 0xDBFF, 0xDFFF] := by decide
+example : ¬ Paired [0xD83D] ∧ ¬ Paired [0xDE00, 0xD83D] ∧ ¬ Paired [0xD83D, 10, 0xDE00] := by decide
+
+/-- `strip_tokens`, full statement, for every source text that lexes — Unicode scalar values
+and verbatim surrogate pairs (a leading surrogate immediately followed by a trailing one, which the
+lexer accepts inside strings, block strings and comments; lone surrogates do not lex): the stripped
+text lexes, and to the same kinds and values (block strings are re-printed minimised and compared
+by value).  The block-string part rests on `printBlockStringW_roundtrip_paired` (print then lex is
+the identity on every representable value of scalar values and pairs) and on
+`blockString?_value_paired` (the value of a block string token is such a sequence: neither the line
+split nor the removal of the common indentation separates a pair). -/
+theorem strip_tokens : strip_tokens_full := by
+  intro s out ts h hl
+  obtain ⟨out', ts', h1, h2, h3, _⟩ := strip_correct s ts hl
   rw [h] at h1
   have : out = out' := Out.ok.inj h1
   subst this
   exact ⟨ts', h2, h3⟩
 
-/-- `strip_idem`, proved for every source text made of Unicode scalar values: stripping the
-stripped text returns it unchanged.  Missing: as for `strip_tokens_partial`. -/
-theorem strip_idem_partial (s out : List Nat) (hs : ∀ c ∈ s, isScalar c = true)
-    (h : stripIgnoredCharacters s = .ok out) : stripIgnoredCharacters out = .ok out := by
+/-- `strip_idem`, full statement, for every source text (surrogate pairs included): stripping the
+stripped text returns it unchanged. -/
+theorem strip_idem : strip_idem_full := by
+  intro s out h
   have hnc := (strip_rejects s).2
   cases hl : lexAll s with
   | ok ts =>
-    obtain ⟨out', ts', h1, _, _, h4⟩ := strip_correct s hs ts hl
+    obtain ⟨out', ts', h1, _, _, h4⟩ := strip_correct s ts hl
     rw [h] at h1
     have : out = out' := Out.ok.inj h1
     subst this
@@ -231,8 +259,39 @@ theorem strip_idem_partial (s out : List Nat) (hs : ∀ c ∈ s, isScalar c = tr
       have := Gql.Text.lexAll_no_crash s
       rw [hc] at this; simp [Out.isCrash] at this)
 
+/-- `strip_tokens` restricted to source texts made of Unicode scalar values (the earlier partial
+result; now a corollary of `strip_tokens`). -/
+theorem strip_tokens_partial (s out : List Nat) (ts : List Token) (_hs : ∀ c ∈ s, isScalar c = true)
+    (h : stripIgnoredCharacters s = .ok out) (hl : lexAll s = .ok ts) :
+    ∃ ts', lexAll out = .ok ts' ∧ kv (sig ts') = kv (sig ts) := strip_tokens s out ts h hl
+
+/-- `strip_idem` restricted to source texts made of Unicode scalar values (corollary of
+`strip_idem`). -/
+theorem strip_idem_partial (s out : List Nat) (_hs : ∀ c ∈ s, isScalar c = true)
+    (h : stripIgnoredCharacters s = .ok out) : stripIgnoredCharacters out = .ok out :=
+  strip_idem s out h
+
 -- `{ a ...b }` consists of scalar values: the two theorems apply to it
 example : ∀ c ∈ [123, 32, 97, 32, 46, 46, 46, 98, 32, 125], isScalar c = true := by decide
+
+-- a text with verbatim surrogate pairs (U+D83D U+DE00) in a block string (indented second line),
+-- in a comment and in a string is in the language, so it lexes and the two theorems apply to it:
+-- `"""<LF>  <pair>a<LF>   <pair>""" #<pair><LF>"<pair>"`
+example : ∃ ts out ts', lexAll [34, 34, 34, 10, 32, 32, 0xD83D, 0xDE00, 97, 10, 32, 32, 32, 0xD83D, 0xDE00,
+      34, 34, 34, 32, 35, 0xD83D, 0xDE00, 10, 34, 0xD83D, 0xDE00, 34] = .ok ts ∧
+    stripIgnoredCharacters [34, 34, 34, 10, 32, 32, 0xD83D, 0xDE00, 97, 10, 32, 32, 32, 0xD83D, 0xDE00,
+      34, 34, 34, 32, 35, 0xD83D, 0xDE00, 10, 34, 0xD83D, 0xDE00, 34] = .ok out ∧
+    lexAll out = .ok ts' ∧ kv (sig ts') = kv (sig ts) ∧
+    sig ts = [⟨.blockString, 0, 18, some [0xD83D, 0xDE00, 97, 10, 32, 0xD83D, 0xDE00]⟩,
+      ⟨.string, 23, 27, some [0xD83D, 0xDE00]⟩, ⟨.eof, 27, 27, none⟩] := by
+  obtain ⟨ts, hts, hsig⟩ := (lexer_eq_grammar _).2.2.1 _ (show specTokenize [34, 34, 34, 10, 32, 32,
+      0xD83D, 0xDE00, 97, 10, 32, 32, 32, 0xD83D, 0xDE00, 34, 34, 34, 32, 35, 0xD83D, 0xDE00, 10,
+      34, 0xD83D, 0xDE00, 34] = some [⟨.blockString, 0, 18, some [0xD83D, 0xDE00, 97, 10, 32, 0xD83D, 0xDE00]⟩,
+      ⟨.string, 23, 27, some [0xD83D, 0xDE00]⟩, ⟨.eof, 27, 27, none⟩] by decide)
+  obtain ⟨out, ts', h1, h2, h3, _⟩ := strip_correct _ ts hts
+  exact ⟨ts, out, ts', hts, h1, h2, h3, hsig⟩
+-- a lone leading surrogate in a block string is not in the language
+example : specTokenize [34, 34, 34, 0xD83D, 34, 34, 34] = none := by decide
 
 example : (∃ e, lexAll [49, 97] = .err e) := by
   have := (lexer_eq_grammar [49, 97]).2.2.2 (by decide)
